@@ -174,5 +174,50 @@ def gen_sweep_layout(seed, spb, lbits, maxpoints=140):
         scripts.append('\n'.join(hdr + body + ['sched ' + ' '.join(map(str, sched))]) + '\n')
     return scripts
 
+def gen_sweep2_layout(seed, spb, lbits, max1=34, max2=22):
+    """Two-preemption sweeps over a constructed layout (check-then-act windows): key K has candidate buckets X
+    and Y, both full, so thread 0's insert of K enters the displacement search with no lock held.  Thread 1
+    erases a resident of X (the search then finds a free slot at depth 0); thread 2 inserts a NEW key whose first
+    candidate bucket is X (it takes that slot).  Schedules: thread 0 runs j1 scheduling points, thread 1 runs to
+    completion, thread 0 runs j2 more points, thread 2 runs to completion, thread 0 finishes - for all j1, j2.
+    On every schedule the new key must be stored once and K must be stored once."""
+    r = random.Random(seed)
+    hp = r.choice([2, 3]) if spb <= 2 else 2
+    nb = 1 << hp
+    for _ in range(300):
+        X, Y = r.sample(range(nb), 2)
+        tagK = [t for t in range(256) if alt_index(hp, t, X) == Y]
+        tagR = [t for t in range(256) if alt_index(hp, t, X) not in (X, Y)]
+        tagS = [t for t in range(256) if alt_index(hp, t, Y) not in (X, Y)]
+        if tagK and tagR and tagS:
+            break
+    else:
+        return []
+    keys = {}
+    kid = 1
+    resX, resY = [], []
+    for _ in range(spb):
+        keys[kid] = gen.hash_with_tag(r, r.choice(tagR), X, hp + 3); resX.append(kid); kid += 1
+    for _ in range(spb):
+        keys[kid] = gen.hash_with_tag(r, r.choice(tagS), Y, hp + 3); resY.append(kid); kid += 1
+    K = kid; keys[K] = gen.hash_with_tag(r, r.choice(tagK), X, hp + 3); kid += 1
+    N = kid; keys[N] = gen.hash_with_tag(r, r.choice(tagR), X, hp + 3)
+    hdr = ['# conc two-preemption layout sweep X=%d Y=%d hp=%d' % (X, Y, hp), 'cfg %d %d 1 1 0' % (spb, lbits)] + ['key %d %d' % kv for kv in keys.items()]
+    hdr.append('init %d' % (nb * spb))
+    hdr.append('pre mhp %d' % (hp + 2))
+    for k in resX + resY:
+        hdr.append('pre insert %d %d' % (k, 10 * k))
+    victim = r.choice(resX)
+    t0 = r.choice(['insert %d 5' % K, 'upsert %d ctx:1:1 1 5' % K, 'ioa %d 5' % K])
+    t1 = r.choice(['erase %d' % victim, 'erasefn %d eraseifeq:%d' % (victim, 10 * victim)])
+    t2 = r.choice(['insert %d 7' % N, 'upsert %d add:1 1 7' % N, 'insert %d 7 ; find %d' % (N, N)])
+    body = ['thread 0 ' + t0, 'thread 1 ' + t1, 'thread 2 ' + t2]
+    scripts = []
+    for j1 in range(1, max1):
+        for j2 in range(1, max2):
+            sched = [0] * j1 + [-2] + [0] * j2 + [-3, -1]
+            scripts.append('\n'.join(hdr + body + ['sched ' + ' '.join(map(str, sched))]) + '\n')
+    return scripts
+
 if __name__ == '__main__':
     sys.stdout.write(gen_conc(int(sys.argv[1]), int(sys.argv[2]), int(sys.argv[3])))
